@@ -47,4 +47,10 @@ theorem C10_spec_rejects (k : Kind) (pre post : List Obs) (ob : Obs) (w : Watch)
     spec k (pre ++ ob :: post) = false := by
   simp only [spec, watchRun_append, hp, watchRun, hs]
 
+/-- non-vacuity: the hypothesis of `C10_spec_every_step` is met by EVERY history of the model, at every position -/
+theorem C10_model_every_step (k : Kind) (c : Cfg) (ops : List Op) (hstats : k.isTask = true → c.statsOk = true)
+    (pre post : List Obs) (ob : Obs) (hsplit : run (init k c) ops = pre ++ ob :: post) :
+    ∃ w w', watchRun k (watchInit k) pre = .ok w ∧ watchStep k w ob = .ok w' :=
+  C10_spec_every_step k pre post ob (hsplit ▸ C10_spec_holds k c ops hstats)
+
 end AsynqModel.Futures
